@@ -126,6 +126,65 @@ def oracle(ctx, n):
                 break
 
 
+def grid_oracle(ctx, n):
+    """second order on BATCHED operators: parameters given as arrays on a grid, placed with the axes= option or by
+    explicit array shapes; every grid element of the Hessian must equal the Hessian of the scalar run (which the
+    finite-difference oracle above decides)"""
+    import epgpy as epg
+    for i in range(n):
+        rng = ctx.rng
+        na = rng.choice([2, 3])
+        nt = na if rng.random() < 0.6 else rng.choice([2, 3])
+        alphas = [float(rng.choice([20, 35, 50, 75, 100, 130])) + 3 * k for k in range(na)]
+        t2s = [float(rng.choice([30, 45, 60, 90])) + 7 * k for k in range(nt)]
+        phis = [float(rng.choice([0, 25, 90]))] if rng.random() < 0.5 else [10.0 + 20 * k for k in range(na)]
+        place = rng.choice(["axes", "axes", "shape"])          # alpha (and phi) on axis 1, T2 on axis 0
+        mode = rng.choice(["auto", "pairs"])
+        ops = rng.choice(["TE", "TEP", "PhiTE"])
+        case = {"alphas": alphas, "T2": t2s, "phis": phis, "place": place, "mode": mode, "ops": ops}
+
+        def kw(own):
+            if mode == "auto":
+                return {"order1": own, "order2": own}
+            prs = [("alpha", "alpha"), ("alpha", "T2"), ("T2", "T2")]
+            return {"order1": own, "order2": [pr for pr in prs if set(pr) & set(own)]}
+
+        def build(al, ph, t2, batched):
+            if batched and place == "axes":
+                ta, tp, tt, ax = np.array(al), (np.array(ph) if len(ph) > 1 else ph[0]), np.array(t2), {"axes": 1}
+            elif batched:
+                ta, tp, tt, ax = np.array(al)[None, :], (np.array(ph)[None, :] if len(ph) > 1 else ph[0]), np.array(t2)[:, None], {}
+            else:
+                ta, tp, tt, ax = al, ph, t2, {}
+            seq = []
+            if ops == "PhiTE":
+                seq.append(epg.Phi(tp, **ax))
+            seq += [epg.T(ta, tp, **ax, **kw(["alpha"])), epg.S(1), epg.E(5.0, 800.0, tt, 0.01, **kw(["T2"]))]
+            if ops == "TEP":
+                seq.append(epg.P(3.0, 0.02))
+            seq += [epg.T(ta, 15.0, **ax, **kw(["alpha"])), epg.S(-1), epg.E(4.0, 800.0, tt, **kw(["T2"])), epg.ADC]
+            return seq
+        try:
+            hes = np.asarray(epg.simulate(build(alphas, phis, t2s, True), probe=epg.Hessian(["alpha", "T2"])))
+            hes = hes.reshape(nt, na, 2, 2)
+            worst, where = 0.0, None
+            for it in range(nt):
+                for ia in range(na):
+                    ph = phis[ia] if len(phis) > 1 else phis[0]
+                    ref = np.asarray(epg.simulate(build(alphas[ia], ph, t2s[it], False), probe=epg.Hessian(["alpha", "T2"]))).reshape(2, 2)
+                    err = np.abs(hes[it, ia] - ref).max() / (1e-12 + np.abs(ref).max())
+                    if err > worst:
+                        worst, where = err, (it, ia)
+        except Exception as e:
+            ctx.report("batched second-order simulation raised %s: %s" % (type(e).__name__, str(e)[:200]), {"grid": case}, found_input=True,
+                       signature={"raises": type(e).__name__, "site": "grid"})
+            continue
+        ctx.cov["oracle_runs"] = ctx.cov.get("oracle_runs", 0) + 1
+        if worst > 1e-9:
+            ctx.report("Hessian of the batched run differs from the scalar run at grid element (T2 #%d, alpha #%d) by %.3g (relative)" % (where[0], where[1], worst),
+                       {"grid": case}, found_input=True, signature={"why": "batched-hessian", "place": place})
+
+
 def declared_forms(ctx):
     """every documented way of declaring order2 must be usable"""
     import epgpy as epg
@@ -178,6 +237,7 @@ def run(ctx):
             nb += 1
             ctx.report("second-order bookkeeping model (Model/Diff.v apply_order2) and diff.py disagree", {"dcase": repr(p), "theorem_or_correspondence": "C03 correspondence Model/Diff.v vs epgpy/diff.py"}, found_input=False)
     oracle(ctx, 30 if quick else 400)
+    grid_oracle(ctx, 10 if quick else 200)
     declared_forms(ctx)
     ctx.cov["trusted_base"] += [
         "translator (Gen/*.v) validated by the Interval tie at %d function-points" % nok,
